@@ -72,7 +72,8 @@ class Spec:
 
 class QuadProblem(Problem):
     """fmt: coo/csr/csc; policy: fresh | cached (one constant object per callback, only sound for
-    constant derivatives) | memo (one object per evaluation point)."""
+    constant derivatives) | memo (one object per evaluation point) | refill (one object per callback, overwritten
+    with the new values on every call)."""
 
     def __init__(self, spec, fmt="coo", policy="fresh", explicit_zeros=False, record=None, dup=False):
         self.spec = spec
@@ -117,6 +118,24 @@ class QuadProblem(Problem):
     def _ret(self, key, x, y, make):
         if self.policy == "fresh":
             return make()
+        if self.policy == "refill":
+            # one preallocated object per callback, refilled with the new values on every call (a callback may do
+            # that: what it returned earlier is not guaranteed to stay; the identity of the object says nothing
+            # about its contents)
+            new = make()
+            old = self._memo.get((key,))
+            if old is not None and type(old) is type(new) and old.shape == new.shape:
+                if isinstance(new, np.ndarray):
+                    old[...] = new
+                    return old
+                if old.nnz == new.nnz and old.format == new.format:
+                    same = all(np.array_equal(getattr(old, a), getattr(new, a))
+                               for a in (("row", "col") if new.format == "coo" else ("indices", "indptr")))
+                    if same:
+                        old.data[...] = new.data
+                        return old
+            self._memo[(key,)] = new
+            return new
         if self.policy == "cached" and key in ("J", "H"):      # constant derivatives only (affine rows, quadratic objective)
             k = (key,)
         else:
